@@ -214,7 +214,8 @@ func c06Adder(r *core.Run, fn *ssa.Function, ops []batchOp, rec map[*ssa.Functio
 	}
 	sameBatch := func(op batchOp) bool { return op.instr.Common().Args[0] == recSet.instr.Common().Args[0] }
 
-	// the old record: a Signature alloc decoded from a Get of the same key
+	// the old record: a Signature decoded from a Get of the same key — either filled through a pointer argument
+	// (decode(data, &old)) or returned by value (old, err := decode(data))
 	var O ssa.Value
 	core.InstrsOf(fn, func(in ssa.Instruction) {
 		c, ok := in.(*ssa.Call)
@@ -222,10 +223,32 @@ func c06Adder(r *core.Run, fn *ssa.Function, ops []batchOp, rec map[*ssa.Functio
 			return
 		}
 		callee := core.StaticCallee(&c.Call)
-		if callee == nil || !p.IsProdFunc(callee) || len(c.Call.Args) != 2 {
+		if callee == nil || !p.IsProdFunc(callee) || len(c.Call.Args) < 1 || len(c.Call.Args) > 2 {
 			return
 		}
-		if !core.IsNamed(c.Call.Args[1].Type(), detPath(p), "Signature") {
+		var cand ssa.Value
+		if len(c.Call.Args) == 2 && core.IsNamed(c.Call.Args[1].Type(), detPath(p), "Signature") {
+			cand = c.Call.Args[1]
+		} else if rt := resultTypes(callee); len(c.Call.Args) == 1 && len(rt) == 2 && core.IsNamed(rt[0], detPath(p), "Signature") && isErrorType(rt[1]) {
+			// the returned record: the local it is assigned to, or the value itself
+			if refs := c.Referrers(); refs != nil {
+				for _, ref := range *refs {
+					if ex, ok := ref.(*ssa.Extract); ok && ex.Index == 0 {
+						cand = ex
+						if er := ex.Referrers(); er != nil {
+							for _, r2 := range *er {
+								if st, ok := r2.(*ssa.Store); ok && st.Val == ssa.Value(ex) {
+									if al, ok := st.Addr.(*ssa.Alloc); ok {
+										cand = al
+									}
+								}
+							}
+						}
+					}
+				}
+			}
+		}
+		if cand == nil {
 			return
 		}
 		// data argument from Get(key) with the record key
@@ -239,7 +262,7 @@ func c06Adder(r *core.Run, fn *ssa.Function, ops []batchOp, rec map[*ssa.Functio
 				continue
 			}
 			if core.Canon(g.Call.Args[1]) == core.Canon(recSet.instr.Common().Args[1]) {
-				O = c.Call.Args[1]
+				O = cand
 			}
 		}
 	})
@@ -784,54 +807,38 @@ func c06Keys(r *core.Run, rec, idx map[*ssa.Function]bool) {
 	}
 	for _, b := range core.SortedFuncs(builders) {
 		bn := core.FuncName(b)
-		checked := false
-		core.InstrsOf(b, func(in ssa.Instruction) {
-			c, ok := in.(*ssa.Call)
-			if !ok || core.CalleeName(&c.Call) != "fmt.Sprintf" {
-				return
-			}
-			format, ok := core.ConstString(c.Call.Args[0])
-			if !ok {
-				return
-			}
-			checked = true
-			args, _ := varargElems(c.Call.Args[1])
-			// free string components: parameters of string type rendered with %s
-			free := 0
-			vi := 0
-			var delims []string
-			lastEnd := 0
-			for i := 0; i+1 < len(format); i++ {
-				if format[i] != '%' {
-					continue
-				}
-				j := i + 1
-				for j < len(format) && strings.ContainsRune("0123456789.+-# ", rune(format[j])) {
-					j++
-				}
-				if j >= len(format) {
-					break
-				}
-				verb := format[j]
-				if vi < len(args) && verb == 's' {
-					if pa, isParam := core.Unwrap(args[vi]).(*ssa.Parameter); isParam {
+		// the key's template, however it is assembled: two or more free string parameters in one key are ambiguous
+		free := 0
+		var delims []string
+		rendered := ""
+		pos := b.Pos()
+		for _, ret := range core.Returns(b) {
+			t := keyTemplate(ret.Results[0], 0)
+			rendered = renderTemplate(t)
+			pos = ret.Pos()
+			free, delims = 0, nil
+			lastLit := ""
+			for _, part := range t {
+				switch part.kind {
+				case "lit":
+					lastLit = part.text
+				case "arg":
+					if pa, isParam := core.Unwrap(part.val).(*ssa.Parameter); isParam && part.text == "" {
 						if bt, ok := pa.Type().Underlying().(*types.Basic); ok && bt.Kind() == types.String {
 							free++
 							if free > 1 {
-								delims = append(delims, format[lastEnd:i])
+								delims = append(delims, lastLit)
 							}
-							lastEnd = j + 1
 						}
 					}
+					lastLit = ""
 				}
-				vi++
-				i = j
 			}
-			r.Check(free < 2, "C06.KEYS", bn+"#composite-key", c.Pos(), "key has at most one free string component",
-				fmt.Sprintf("key format %q joins %d free string components with the literal delimiter %q: (hash,id) pairs containing the delimiter collide, one key serves two signatures", format, free, strings.Join(delims, "|")))
-		})
-		if !checked {
-			r.OK("C06.KEYS", bn+"#composite-key", b.Pos(), "key = prefix + one component (no delimiter ambiguity)")
+		}
+		if free >= 2 {
+			r.Fail("C06.KEYS", bn+"#composite-key", pos, fmt.Sprintf("key template %q joins %d free string components with the literal delimiter %q: (hash,id) pairs containing the delimiter collide, one key serves two signatures", rendered, free, strings.Join(delims, "|")))
+		} else {
+			r.OK("C06.KEYS", bn+"#composite-key", pos, "key "+rendered+" has at most one free string component (no delimiter ambiguity)")
 		}
 	}
 }
